@@ -70,6 +70,7 @@ type Result struct {
 	Incomplete     string           `json:"incomplete,omitempty"`
 	HarnessError   string           `json:"harness_error,omitempty"`
 	WallMS         int64            `json:"wall_ms"`
+	Projections    int64            `json:"projections,omitempty"` // projection replays of the Env differential oracle
 	Shard          int              `json:"shard"`
 	Shards         int              `json:"shards"`
 }
@@ -84,6 +85,12 @@ type execOut struct {
 
 // runOnce executes the scenario once. only >= 0 runs only that thread (sequential reference).
 func runOnce(sc *Scenario, prefix []prefixEntry, branchSleep uint32, o *Options, only int) (out *execOut, herr string) {
+	return runSel(sc, prefix, branchSleep, o, only, nil, nil)
+}
+
+// runSel is runOnce with a projection: sel != nil runs only the listed scenario threads (the
+// Prefix is kept) and guide drives the scheduler (see Exec.guide).
+func runSel(sc *Scenario, prefix []prefixEntry, branchSleep uint32, o *Options, only int, sel []int, guide []int8) (out *execOut, herr string) {
 	h := o.Horizon
 	if h == 0 {
 		h = sc.Horizon
@@ -96,6 +103,10 @@ func runOnce(sc *Scenario, prefix []prefixEntry, branchSleep uint32, o *Options,
 	x.useSleep = o.Complete && !o.NoSleep
 	x.keepOps = x.useSleep
 	x.branchSleep = branchSleep
+	x.guide = guide
+	if sel != nil {
+		x.useSleep, x.keepOps = false, false
+	}
 	x.mode = modeSetup
 	cur = x
 	defer func() {
@@ -119,6 +130,15 @@ func runOnce(sc *Scenario, prefix []prefixEntry, branchSleep uint32, o *Options,
 		if only >= 0 && i != only {
 			continue
 		}
+		if sel != nil {
+			keep := false
+			for _, j := range sel {
+				keep = keep || j == i
+			}
+			if !keep {
+				continue
+			}
+		}
 		f := f
 		fns = append(fns, func() any { return f(env) })
 	}
@@ -129,10 +149,13 @@ func runOnce(sc *Scenario, prefix []prefixEntry, branchSleep uint32, o *Options,
 		if i >= len(fns) {
 			break // spawned helper threads have no observable
 		}
-		if t.completed {
+		switch {
+		case t.completed:
 			raw[i] = t.result
 			out.results = append(out.results, canon(t.result))
-		} else {
+		case sc.Env != nil && x.verdict == "deadlock" && t.blockedAt != "":
+			out.results = append(out.results, "BLOCKED("+t.blockedAt+")")
+		default:
 			out.results = append(out.results, "ABORTED")
 		}
 	}
@@ -264,7 +287,9 @@ func (e *explorer) check(out *execOut) {
 		e.res.HarnessError = x.verdict + ": " + x.verdictMsg
 		return
 	case "deadlock":
-		e.add("deadlock scenario="+sc.sigName()+" "+deadlockClass(x.verdictMsg), "deadlock", x.verdictMsg, out, nil)
+		if sc.Env == nil {
+			e.add("deadlock scenario="+sc.sigName()+" "+deadlockClass(x.verdictMsg), "deadlock", x.verdictMsg, out, nil)
+		}
 	case "horizon":
 		e.add("horizon scenario="+sc.sigName(), "horizon", x.verdictMsg+" (livelock or unbounded loop under this schedule)", out, nil)
 	}
@@ -289,6 +314,12 @@ func (e *explorer) check(out *execOut) {
 			}
 			e.add(fmt.Sprintf("differential scenario=%s op=%s%s", sc.sigName(), sc.label(i), dc), "differential",
 				fmt.Sprintf("thread %d (%s) observed %s but alone on a fresh instance it observes %s", i, sc.label(i), clip(got), clip(e.solo[i])), out, nil)
+		}
+	}
+	if sc.Env != nil && (x.verdict == "" || x.verdict == "deadlock") {
+		e.projections(out)
+		if e.stop != "" {
+			return
 		}
 	}
 	if out.check != "" {
@@ -318,6 +349,78 @@ func (e *explorer) check(out *execOut) {
 		e.res.MaxPreemptions = p
 	}
 	e.res.Contended += int64(x.contended)
+}
+
+// projections is the differential oracle of Env scenarios: every non-environment thread, run
+// again with only the environment threads and in the same relative order, must observe the same.
+func (e *explorer) projections(out *execOut) {
+	sc := e.sc
+	n := len(sc.Threads)
+	isEnv := func(i int) bool {
+		for _, j := range sc.Env {
+			if j == i {
+				return true
+			}
+		}
+		return false
+	}
+	plain := e.o
+	plain.Complete = false
+	for i := 0; i < n && i < len(out.results); i++ {
+		if isEnv(i) || out.results[i] == "ABORTED" {
+			continue
+		}
+		sel := append([]int{}, sc.Env...)
+		sel = append(sel, i)
+		sort.Ints(sel)
+		// thread ids of the projected execution: kept scenario threads in order, then the daemons
+		idmap := map[int8]int8{}
+		for k, j := range sel {
+			idmap[int8(j)] = int8(k)
+		}
+		for id := n; id < len(out.x.threads); id++ {
+			idmap[int8(id)] = int8(len(sel) + id - n)
+		}
+		var guide []int8
+		for k := range out.x.points {
+			p := &out.x.points[k]
+			if p.data {
+				continue
+			}
+			if g, ok := idmap[p.chosen]; ok {
+				guide = append(guide, g)
+			}
+		}
+		if guide == nil {
+			guide = []int8{}
+		}
+		po, herr := runSel(sc, nil, 0, &plain, -1, sel, guide)
+		if herr != "" {
+			e.stop = "harness"
+			e.res.HarnessError = "projection of thread " + sc.label(i) + ": " + herr
+			return
+		}
+		e.res.Projections++
+		if po.x.verdict != "" && po.x.verdict != "deadlock" {
+			e.add(fmt.Sprintf("%s scenario=%s op=%s (alone with the environment)", po.x.verdict, sc.sigName(), sc.label(i)), po.x.verdict,
+				fmt.Sprintf("thread %d (%s) alone with the environment threads, same order: %s", i, sc.label(i), po.x.verdictMsg), out, nil)
+			continue
+		}
+		want := "ABORTED"
+		for k, j := range sel {
+			if j == i && k < len(po.results) {
+				want = po.results[k]
+			}
+		}
+		if got := out.results[i]; got != want {
+			dc := ""
+			if sc.DiffClass != nil {
+				dc = " differs=" + sc.DiffClass(got, want)
+			}
+			e.add(fmt.Sprintf("differential scenario=%s op=%s%s", sc.sigName(), sc.label(i), dc), "differential",
+				fmt.Sprintf("thread %d (%s) observed %s but alone with the environment threads %v in the same relative order it observes %s", i, sc.label(i), clip(got), sc.Env, clip(want)), out, nil)
+		}
+	}
 }
 
 func deadlockClass(msg string) string {
@@ -524,8 +627,8 @@ func Explore(sc *Scenario, o Options) *Result {
 	plain := o
 	plain.Complete = false
 	for i := range sc.Threads {
-		if sc.Shared {
-			break // threads legitimately depend on each other: no sequential reference
+		if sc.Shared || sc.Env != nil {
+			break // threads legitimately depend on each other / on the environment: no fixed sequential reference
 		}
 		out, herr := runOnce(sc, nil, 0, &plain, i)
 		if herr != "" {
@@ -617,7 +720,7 @@ func Replay(sc *Scenario, sched []SchedPoint, o Options) *Result {
 	plain := o
 	plain.Complete = false
 	for i := range sc.Threads {
-		if sc.Shared {
+		if sc.Shared || sc.Env != nil {
 			break
 		}
 		out, herr := runOnce(sc, nil, 0, &plain, i)
